@@ -100,6 +100,9 @@ def scenarios(tier, seed):
                 out.append((f"{p}-{fam}-s{s}", p, s, nt[p], ms, 0, excl))
         # the debug helper iv_thread_list_children() called by the parent while children start: its own scenario
         out.append((f"thread-list-epoll-s{s}", "thread", s, 4, ms, 1, ""))
+        # creators that leave (iv_quit, tear-down) while threads they created are starting, running or exiting
+        out.append((f"thread-abandon-epoll-s{s}", "thread", s, 4, ms, 2, ""))
+        out.append((f"thread-abandon-ppoll-s{s}", "thread", s, 3, ms, 2, NO_EPOLL))
     return corpus_scenarios() + out
 
 
